@@ -881,11 +881,14 @@ func (r *runningStep) executeSubWorkflows(input executeInput) ([]any, map[int]st
 			}
 
 			r.logger.Debugf("Executing item %d...", i)
-			// Ignore the output ID here because it can only be "success"
-			_, outputData, err := r.workflow.Execute(r.ctx, input)
+			// Only the "success" output matches the schema of the success list. Any other output
+			// of the subworkflow counts as a failure of that item.
+			outputID, outputData, err := r.workflow.Execute(r.ctx, input)
 			r.lock.Lock()
 			if err != nil {
 				itemErrors[i] = err.Error()
+			} else if outputID != "success" {
+				itemErrors[i] = fmt.Sprintf("subworkflow finished with output '%s' instead of 'success'", outputID)
 			} else {
 				itemOutputs[i] = outputData
 			}
